@@ -170,7 +170,9 @@ def ev_close(impl, model, alpha=None, steps=1):
         # fractional order: compare on the log A scale with the absolute slack of the series
         sc = (alpha - 1) / max(steps, 1)
         return abs(impl - model) * sc <= 1e-9 * abs(impl) * sc + 1e-11
-    return core.close(impl, model, 1e-9, 1e-300)
+    # integer orders: log A is obtained by cancellation from intermediates of size ~alpha*q + (k^2-k)/(2 sigma^2);
+    # for tiny q the RDP itself is ~1e-12 and inherits their absolute rounding noise (not a semantic difference)
+    return core.close(impl, model, 1e-9, 1e-15 * max(steps, 1))
 
 
 def frac_triples(history_or_pairs, orders):
@@ -183,11 +185,50 @@ def frac_triples(history_or_pairs, orders):
 
 
 # --------------------------------------------------------------------------- property oracles (real code only)
+def frac_series_without_early_stop(q, sigma, alpha, max_terms=4000):
+    """the two-sided series of `_compute_log_a_for_frac_alpha`, term by term with the implementation's own
+    `_log_add / _log_sub / _log_erfc`, but testing `max(log_s0, log_s1) < -30` only once i > alpha.
+    Used ONLY to classify an under-report as the known early-stop defect."""
+    from scipy import special
+
+    from opacus.accountants.analysis import rdp as R
+
+    try:
+        a0 = a1 = -math.inf
+        z0 = sigma ** 2 * math.log(1 / q - 1) + 0.5
+        for i in range(max_terms):
+            coef = special.binom(alpha, i)
+            lc = math.log(abs(coef))
+            j = alpha - i
+            t0 = lc + i * math.log(q) + j * math.log(1 - q)
+            t1 = lc + j * math.log(q) + i * math.log(1 - q)
+            e0 = math.log(0.5) + R._log_erfc((i - z0) / (math.sqrt(2) * sigma))
+            e1 = math.log(0.5) + R._log_erfc((z0 - j) / (math.sqrt(2) * sigma))
+            s0 = t0 + (i * i - i) / (2 * sigma ** 2) + e0
+            s1 = t1 + (j * j - j) / (2 * sigma ** 2) + e1
+            if coef > 0:
+                a0, a1 = R._log_add(a0, s0), R._log_add(a1, s1)
+            else:
+                a0, a1 = R._log_sub(a0, s0), R._log_sub(a1, s1)
+            if i + 1 > alpha and max(s0, s1) < -30:
+                return R._log_add(a0, a1)
+    except Exception:
+        return None
+    return None
+
+
 def triple_oracle(case):
     q, s, a = case["q"], case["sigma"], case["alpha"]
     res = L.quad_oracle(q, s, a)
-    if res and res[0].startswith("C06:rdp-below-true:frac") and L.impl_frac_terms(q, s, a) == 1:
-        return (K_FRAC, res[1] + " — the series loop stopped after its first term", res[2])
+    if res and res[0].startswith("C06:rdp-below-true:frac") and 1 <= L.impl_frac_terms(q, s, a) <= a:
+        # Signature of the known defect, exactly: the loop's `max(log_s0, log_s1) < -30` test fired while the
+        # binomial weights were still rising (they peak in the interior, i ≈ q·alpha, for large q·sigma) – i.e. the
+        # SAME series, continued until the last positive coefficient i = floor(alpha) has been passed, gives the
+        # true value.  Anything else that is below the true divergence is a different failure.
+        cont = frac_series_without_early_stop(q, s, a)
+        la, _ = L.true_log_a(q, s, a)
+        if cont is not None and abs(cont - la) <= 1e-6 * abs(la) + 1e-10:
+            return (K_FRAC, res[1] + f" — the series loop stopped after {L.impl_frac_terms(q, s, a)} term(s), before the binomial weights' peak", res[2])
     return res
 
 
@@ -310,6 +351,67 @@ def corr_triples(ctx, variant):
             ctx.validated()
         else:
             ctx.mismatch("compute-rdp", case, impl, rep[i], oracle=triple_oracle)
+
+
+def corr_public_compute_rdp(ctx, variant):
+    """the public `compute_rdp(q=, noise_multiplier=, steps=, orders=)`: a list of orders AND a bare scalar order
+    (which the docstring allows) must both be `_compute_rdp * steps` (driver `rdp` = `computeRdp`)"""
+    from opacus.accountants.analysis import rdp as R
+
+    alphas = L.default_alphas()
+    rng = ctx.rng
+    b = L.Batch(ctx, max_terms=ctx.n(2500, 20000))
+    b.add(f"variant {variant}")
+    cases = []
+    for _ in range(ctx.n(40, 800)):
+        q, s = rnd(gen_q(rng)), rnd(gen_sigma(rng))
+        steps = rng.choice([1, 2, rng.randint(3, 5000)])
+        scalar = rng.random() < 0.5
+        orders = [gen_alpha(rng, alphas)] if scalar else [gen_alpha(rng, alphas) for _ in range(rng.randint(1, 5))]
+        orders = [a for a in orders if not math.isinf(a)] or [2.0]
+        i = b.add(f"rdp {f2h(q)} {f2h(s)} {steps} {len(orders)} " + " ".join(L.otok(a) for a in orders), frac_triples([(s, q)], orders))
+        cases.append((q, s, steps, orders, scalar, i))
+    rep = b.run()
+    for q, s, steps, orders, scalar, i in cases:
+        if i in b.skipped:
+            ctx.count("skipped:series-longer-than-table")
+            continue
+        impl = L.call(R.compute_rdp, q=q, noise_multiplier=s, steps=steps, orders=float(orders[0]) if scalar else list(orders))
+        toks = rep[i].split()
+        if isinstance(impl, L.Exc):
+            ok = rep[i].startswith("err:") and rep[i] != "err:oracle-exhausted"
+        else:
+            vals = [float(impl)] if scalar else [float(x) for x in impl]
+            model = [L.evval(t) for t in toks]
+            ok = len(vals) == len(model) and all(ev_close(v, m, a, steps) for v, m, a in zip(vals, model, orders))
+        ctx.case(("compute_rdp", q, s, steps, tuple(orders), scalar), nontrivial=steps > 1 and 0 < q < 1, kind="compute_rdp:" + ("scalar-order" if scalar else "order-list"))
+        if ok:
+            ctx.validated()
+        else:
+            ctx.mismatch("public-compute-rdp", {"q": q, "sigma": s, "steps": steps, "orders": orders, "scalar": scalar}, str(impl)[:300], rep[i][:300],
+                         oracle=lambda c: public_rdp_oracle(c))
+
+
+def public_rdp_oracle(c):
+    """PROPERTY on the real code: steps compose by addition – compute_rdp(steps=n) = n * compute_rdp(steps=1), per order,
+    and each per-step value is the true divergence (quadrature)"""
+    from opacus.accountants.analysis import rdp as R
+
+    o = float(c["orders"][0]) if c["scalar"] else list(c["orders"])
+    try:
+        one = np.atleast_1d(R.compute_rdp(q=c["q"], noise_multiplier=c["sigma"], steps=1, orders=o)).astype(float)
+        many = np.atleast_1d(R.compute_rdp(q=c["q"], noise_multiplier=c["sigma"], steps=c["steps"], orders=o)).astype(float)
+    except Exception:
+        return None
+    for a, x, y in zip(c["orders"], one, many):
+        if math.isfinite(x) and not core.close(y, x * c["steps"], 1e-9, 1e-300):
+            return ("C06:compose-by-addition", f"compute_rdp(q={c['q']}, sigma={c['sigma']}, steps={c['steps']}, orders={'scalar ' if c['scalar'] else ''}{a}) = {y}, "
+                    f"but {c['steps']} x the one-step value {x} = {x * c['steps']}", {"failing_input": dict(c)})
+    for a in c["orders"]:
+        r = triple_oracle({"q": c["q"], "sigma": c["sigma"], "alpha": a})
+        if r and r[0] != K_FRAC:
+            return r
+    return None
 
 
 def corr_conversion(ctx):
@@ -478,6 +580,7 @@ def run(ctx):
     corr_history(ctx)
     corr_conversion(ctx)
     corr_triples(ctx, variant)
+    corr_public_compute_rdp(ctx, variant)
     corr_accountant(ctx, variant)
     # replay of the Lean counterexample witness on the real code
     if variant == "asCoded":
